@@ -3,6 +3,7 @@ C15 — FactoryPool spawns and releases just enough children.
 -/
 import CobaldVerif.Model.Factory
 import CobaldVerif.Generated.Src
+import CobaldVerif.Generated.SrcFactory
 import Mathlib.Tactic.Linarith
 import Mathlib.Tactic.Ring
 import Mathlib.Data.List.Perm.Basic
@@ -495,4 +496,57 @@ theorem gen_adjust_eq (factory : Nat → Child) (fuel : Nat) (st : St) (order : 
   unfold adjust Gen.factoryShrinks
   by_cases h : st.demand < supply st <;> simp [h]
 
+/-! ### `_shrink`, `_grow`, `_reap_children` and the aggregates as written in the source
+(`Generated/SrcFactory.lean`) -/
+
+/-- the release pass of `_shrink` as written in the source is the model's -/
+theorem gen_shrink_pass_eq : ∀ (hit : List Child) (st : St) (excess : Rat),
+    Gen.Factory.shrinkPass st excess hit = shrinkPass st excess hit := by
+  intro hit
+  induction hit with
+  | nil => intros; rfl
+  | cons c rest ih => intro st excess; simp only [Gen.Factory.shrinkPass, shrinkPass, ih]
+
+/-- `_shrink` as written in the source: hit list sorted by the source's key, the source's excess, the
+source's release pass, then the reaping pass with the source's condition -/
+theorem gen_shrink_eq (st : St) (target : Rat) (order : List Nat) :
+    shrink st target order =
+      (let hit := sortStable Gen.Factory.shrinkKey (inOrder st order)
+       reap (Gen.Factory.shrinkPass st (Gen.Factory.shrinkExcess hit target) hit)) := by
+  unfold shrink Gen.Factory.shrinkExcess
+  simp only [gen_shrink_pass_eq]
+  rfl
+
+/-- `_reap_children` releases exactly the hatchery children the source's condition selects -/
+theorem gen_reap_eq (st : St) :
+    reap st = { st with hatchery := st.hatchery.filter (fun c => !Gen.Factory.reapCond c),
+                        mortuary := st.mortuary ++ (st.hatchery.filter (fun c => Gen.Factory.reapCond c)).map (fun c => { c with demand := 0 }) } := by
+  unfold reap Gen.Factory.reapCond
+  simp only [St.mk.injEq, true_and]
+  refine ⟨?_, trivial⟩
+  apply List.filter_congr
+  intro c _
+  by_cases h : c.demand ≤ 0 <;> simp [h]
+
+/-- the spawn loop of `_grow` goes on exactly while the source's condition holds -/
+theorem gen_grow_continues (factory : Nat → Child) (fuel : Nat) (st : St) (missing : Rat) :
+    (¬ Gen.Factory.growContinues missing → growLoop factory (fuel + 1) st missing = some st) ∧
+    (Gen.Factory.growContinues missing → growLoop factory (fuel + 1) st missing =
+      (let c : Child := { factory st.spawned with id := 1000 + st.spawned }
+       if c.demand ≤ 0 then none
+       else growLoop factory fuel { st with hatchery := st.hatchery ++ [c], spawned := st.spawned + 1 } (missing - c.demand))) := by
+  unfold Gen.Factory.growContinues
+  constructor
+  · intro h; have : missing ≤ 0 := not_lt.mp h; simp [growLoop, this]
+  · intro h; have : ¬ missing ≤ 0 := not_le.mpr h; simp [growLoop, this]
+
+/-- supply, utilisation and allocation as written in the source are the model's -/
+theorem gen_aggregates_eq (st : St) :
+    Gen.Factory.supply st = supply st ∧ Gen.Factory.utilisation st = fitness st (·.util) ∧
+    Gen.Factory.allocation st = fitness st (·.alloc) ∧ Gen.Factory.releaseShape = true := by
+  refine ⟨rfl, ?_, ?_, rfl⟩
+  · unfold Gen.Factory.utilisation fitness
+    by_cases h : (st.all.filter (fun c => decide (0 < c.supply))).length = 0 <;> simp [h]
+  · unfold Gen.Factory.allocation fitness
+    by_cases h : (st.all.filter (fun c => decide (0 < c.supply))).length = 0 <;> simp [h]
 end Cobald.Props.C15
